@@ -51,6 +51,19 @@ def cases(rng, tier):
             var = fam + rng.choice([".o", ".r", ".o.asg"])
             out.append((G.line("fuse", fmt, var, [n, op, 0], w1 + w2), ("comm", gid, 0, n)))
             out.append((G.line("fuse", fmt, var, [n, op, 0], w2 + w1), ("comm", gid, 1, n)))
+        # aliased operands: the very same object passed twice (self-fusion by reference), and folds that repeat one object
+        for _ in range(N // 8):
+            n = rng.choice([2, 3, 4])
+            den = rng.choice([4, 8, 16, 64])
+            w = G.rand_opinion(rng, n, den, rng.choice(["int", "int", "any", "dog", "vac"]))
+            fam = rng.choice(G.FAMS_1D)
+            op = rng.randint(0, 3)
+            if rng.random() < 0.5:
+                out.append(G.line("fuse", fmt, fam + "." + rng.choice(["o", "r"]) + ".alias", [n, op, 0], w + w))
+            else:
+                k = rng.choice([2, 3, 4])
+                wi = G.rand_opinion(rng, n, den, "int")
+                out.append(G.line("fuse_fold", fmt, fam + ".o.alias", [n, 0, k, rng.choice([0, 1, 2, 3])] + list(range(k)), wi * k))
         M = 25 if tier == "quick" else 300
         for _ in range(M):
             n = rng.choice([2, 3, 4])
